@@ -48,6 +48,8 @@ func Exec(w []string) (answer string, mine bool) {
 	case "disp", "disparms", "dispctx", "dispsites", "dispkinds", "dispfact", "beh", "e2e":
 	case "seq", "seqinv":
 		return seqExec(w), true
+	case "evt", "evtinv":
+		return evtExec(w), true
 	default:
 		return "", false
 	}
@@ -110,6 +112,15 @@ func Gen(r *vh.Rng, tier string, emit func(op, impl, class string, nontrivial bo
 	go func() {
 		defer close(seqDone)
 		seqRes = CollectSeq(seqR, tier)
+	}()
+	// 0b. the event tier (evt.go), likewise
+	evtR := vh.NewRng(r.U64())
+	evtScs := GenEvt(evtR, tier)
+	var evtRes, evtNotes []string
+	evtDone := make(chan struct{})
+	go func() {
+		defer close(evtDone)
+		evtRes = CollectEvt(evtScs, 6, &evtNotes)
 	}()
 	// 1. the extracted table, cell by cell
 	emit("dispsites", t.SitesLine(), "disp/sites", true)
@@ -215,6 +226,9 @@ func Gen(r *vh.Rng, tier string, emit func(op, impl, class string, nontrivial bo
 	}
 	<-seqDone
 	EmitSeq(seqRes, emit)
+	<-evtDone
+	EmitEvt(evtScs, evtRes, emit)
+	Notes = append(Notes, evtNotes...)
 	sort.Strings(Notes)
 	_ = fmt.Sprint
 }
